@@ -327,7 +327,7 @@ func genRuleItems(t *rapid.T, kind string, v desc.V, mg *msgGen, maxRules int, w
 		case "required":
 			items = append(items, "required"+mg.next(t))
 		case "unknown":
-			items = append(items, rapid.SampledFrom([]string{"nosuch", "size=1~50", "Required", "len"}).Draw(t, "unknownName"))
+			items = append(items, rapid.SampledFrom([]string{"nosuch", "size=1~50", "Required", "len", "required2", "required_if=1", "existx"}).Draw(t, "unknownName"))
 		case "malformed":
 			items = append(items, rapid.SampledFrom([]string{"to=5", "oto=1~2~3", "to=a~b", "in=1/2", "include=ab"}).Draw(t, "malformed"))
 		case "empty":
